@@ -70,9 +70,8 @@ func (e *Env) Compare(c Concrete, o Obs) *Diff {
 	if s.Role == "server" {
 		return e.compareServer(c, o)
 	}
-	if len(o.Before) > 0 {
-		return &Diff{Broken: true, Detail: fmt.Sprintf("stale entries before the exchange: %v", o.Before)}
-	}
+	// (entries carrying this case's token before the exchange are leftovers of a crashed
+	// earlier run; Run removed them)
 	exp := s.Exp
 	if c.Soft && exp == "create" {
 		exp = "either"
